@@ -2,6 +2,7 @@ package main
 
 import (
 	"fmt"
+	"os"
 	"sort"
 	"strings"
 
@@ -10,6 +11,14 @@ import (
 )
 
 func init() { subs["kube"] = corrKube }
+
+func keysOf(os []mObj) []string {
+	var out []string
+	for _, o := range os {
+		out = append(out, o.Key)
+	}
+	return out
+}
 
 // ---------- objects ----------
 
@@ -29,16 +38,22 @@ func (o mObj) kind() string {
 }
 func (o mObj) name() string { return o.Key[strings.LastIndex(o.Key, "/")+1:] }
 
-func objKey(typed bool, name string) string {
+func (o mObj) ns() string { return strings.Split(o.Key, "/")[1] }
+
+func objKeyNs(typed bool, ns, name string) string {
 	if typed {
-		return "namespaces/default/configmaps/" + name
+		return "namespaces/" + ns + "/configmaps/" + name
 	}
-	return "namespaces/default/namespacedtype/" + name
+	return "namespaces/" + ns + "/namespacedtype/" + name
 }
+func objKey(typed bool, name string) string { return objKeyNs(typed, "default", name) }
 
 func (o mObj) yaml() string {
 	var b strings.Builder
 	fmt.Fprintf(&b, "apiVersion: v1\nkind: %s\nmetadata:\n  name: %s\n", o.kind(), o.name())
+	if o.ns() != "default" {
+		fmt.Fprintf(&b, "  namespace: %s\n", o.ns())
+	}
 	wm := func(title string, m map[string]string, indent string) {
 		if len(m) == 0 {
 			return
@@ -55,7 +70,7 @@ func (o mObj) yaml() string {
 }
 
 func (o mObj) server() map[string]any {
-	md := map[string]any{"name": o.name(), "namespace": "default"}
+	md := map[string]any{"name": o.name(), "namespace": o.ns()}
 	if len(o.Labels) > 0 {
 		md["labels"] = strMapAny(o.Labels)
 	}
@@ -165,7 +180,11 @@ func genManifest(r *Rng) []mObj {
 	for i := r.Intn(4); i > 0; i-- {
 		typed := r.Chance(75)
 		n := Pick(r, kubeNames)
-		k := objKey(typed, n)
+		ns := "default"
+		if r.Chance(15) {
+			ns = "other" // a resource rendered into a namespace other than the release's
+		}
+		k := objKeyNs(typed, ns, n)
 		if used[k] {
 			continue
 		}
@@ -189,7 +208,10 @@ func genManifest(r *Rng) []mObj {
 		if out[i].Typed != out[j].Typed {
 			return out[i].Typed
 		}
-		return out[i].name() < out[j].name()
+		if out[i].name() != out[j].name() {
+			return out[i].name() < out[j].name()
+		}
+		return out[i].ns() < out[j].ns()
 	})
 	return out
 }
@@ -197,7 +219,7 @@ func genManifest(r *Rng) []mObj {
 func chartOf(objs []mObj, version int) *chart.Chart {
 	c := &chart.Chart{Metadata: &chart.Metadata{APIVersion: "v2", Name: "app", Version: fmt.Sprintf("0.0.%d", version)}}
 	for _, o := range objs {
-		c.Templates = append(c.Templates, &chart.File{Name: fmt.Sprintf("templates/%s-%s.yaml", o.name(), strings.ToLower(o.kind())), Data: []byte(o.yaml())})
+		c.Templates = append(c.Templates, &chart.File{Name: fmt.Sprintf("templates/%s-%s-%s.yaml", o.name(), o.ns(), strings.ToLower(o.kind())), Data: []byte(o.yaml())})
 	}
 	return c
 }
@@ -227,7 +249,7 @@ func ownerMeta(state string) (map[string]string, map[string]string) {
 func corrKube(seed uint64, n int, tier string, out string, replay string) {
 	m := StartModel()
 	defer m.Close()
-	rep := NewReport("C02", "kube", seed, "case = history of 2-6 operations (install / upgrade / rollback / uninstall, with take-ownership, force, dry-run variants) over manifests of 0-3 resources (typed ConfigMaps and the unstructured test kind; data, labels, keep / other resource-policy annotations) against the simulated API server behind the real kube.Client, interleaved with out-of-band edits (change / add / delete a field, toggle the keep annotation, delete an object), pre-existing objects in six ownership states, and bystanders; after every operation the object store and the multiset of mutating requests are compared with the Lean cluster model, and the property monitors (targets present with the manifest's fields, removed ones deleted unless kept live, bystanders untouched, stamping, deletes confined) run on the implementation's store and request log; non-trivial = at least 2 operations changed the cluster; distinct = hash of the history")
+	rep := NewReport("C02", "kube", seed, "case = history of 2-6 operations (install / upgrade / rollback / uninstall, with take-ownership, force, dry-run variants) over manifests of 0-3 resources (typed ConfigMaps and the unstructured test kind; data, labels, keep / other resource-policy annotations) against the simulated API server behind the real kube.Client, interleaved with out-of-band edits (change / add / delete a field, toggle the keep annotation, delete an object), pre-existing objects in six ownership states, and bystanders; after every operation the object store and the multiset of mutating requests are compared with the Lean cluster model, and the property monitors (targets present with the manifest's fields, removed ones deleted unless kept live, bystanders untouched, stamping, deletes confined) run on the implementation's store and request log; the API server rejects the creation of one object in about one operation in ten and the history goes on through the failed revision; non-trivial = at least 2 operations changed the cluster; distinct = hash of the history")
 	for _, id := range caseSeq("kube", seed, n) {
 		kubeHistory(m, rep, NewRng(id.Seed, uint64(id.Index)), id.Seed, id.Index)
 	}
@@ -241,6 +263,13 @@ type kubeStep struct {
 	DryRun        bool   `json:"dryRun"`
 	Manifest      []mObj `json:"manifest"`
 	Drift         []any  `json:"drift"`
+	Reject        string `json:"reject,omitempty"` // the API server rejects the creation of this object
+}
+
+// kubeRev: the harness's own record of the revisions the operations should have produced
+type kubeRev struct {
+	Manifest []mObj
+	Status   string // deployed superseded failed
 }
 
 func kubeHistory(m *Model, rep *Report, r *Rng, seed uint64, idx int) {
@@ -253,16 +282,37 @@ func kubeHistory(m *Model, rep *Report, r *Rng, seed uint64, idx int) {
 	for i := r.Intn(3); i > 0; i-- {
 		st := Pick(r, ownershipStates)
 		l, a := ownerMeta(st)
-		o := mObj{Key: objKey(r.Chance(80), Pick(r, kubeNames)), Data: genKData(r), Labels: l, Annos: a}
+		pns := "default"
+		if r.Chance(25) {
+			pns = "other"
+		}
+		o := mObj{Key: objKeyNs(r.Chance(80), pns, Pick(r, kubeNames)), Data: genKData(r), Labels: l, Annos: a}
 		o.Typed = strings.Contains(o.Key, "configmaps")
 		w.api.objs[o.Key] = o.server()
 		pre = append(pre, map[string]any{"state": st, "obj": o})
 	}
 	var hist []kubeStep
-	var deployed []mObj // manifest of the deployed revision (what the next upgrade diffs against)
-	var prevDeployed []mObj
+	var revs []kubeRev
 	installed := false
-	revisions := 0
+	// what upgrade diffs against: the deployed revision if there is one, else the newest
+	currentOf := func() []mObj {
+		for i := len(revs) - 1; i >= 0; i-- {
+			if revs[i].Status == "deployed" {
+				return revs[i].Manifest
+			}
+		}
+		if len(revs) > 0 {
+			return revs[len(revs)-1].Manifest
+		}
+		return nil
+	}
+	supersede := func() {
+		for i := range revs {
+			if revs[i].Status == "deployed" {
+				revs[i].Status = "superseded"
+			}
+		}
+	}
 	changed := 0
 	version := 0
 	nops := 2 + r.Intn(5)
@@ -327,7 +377,7 @@ func kubeHistory(m *Model, rep *Report, r *Rng, seed uint64, idx int) {
 			st.Kind = "install"
 		default:
 			st.Kind = Pick(r, []string{"upgrade", "upgrade", "upgrade", "rollback", "uninstall"})
-			if st.Kind == "rollback" && revisions < 2 {
+			if st.Kind == "rollback" && len(revs) < 2 {
 				st.Kind = "upgrade"
 			}
 		}
@@ -335,10 +385,30 @@ func kubeHistory(m *Model, rep *Report, r *Rng, seed uint64, idx int) {
 		if st.Kind == "install" || st.Kind == "upgrade" {
 			st.Manifest = genManifest(r)
 		}
+		// the manifests the operation works with (by the harness's own book-keeping)
+		var deployed, target []mObj
+		switch st.Kind {
+		case "install":
+			target = st.Manifest
+		case "upgrade":
+			deployed, target = currentOf(), st.Manifest
+		case "rollback":
+			deployed, target = revs[len(revs)-1].Manifest, revs[len(revs)-2].Manifest
+		case "uninstall":
+			deployed = revs[len(revs)-1].Manifest
+		}
+		if st.Kind != "uninstall" && len(target) > 0 && r.Chance(12) && !st.DryRun {
+			st.Reject = Pick(r, target).Key
+		}
 		hist = append(hist, st)
 		before := storeDump(w)
 		logFrom := len(w.api.log)
 		w.revive()
+		if st.Reject != "" {
+			w.api.mu.Lock()
+			w.api.reject["POST "+st.Reject] = true
+			w.api.mu.Unlock()
+		}
 		cfg := w.cfg()
 		version++
 		var err error
@@ -377,21 +447,21 @@ func kubeHistory(m *Model, rep *Report, r *Rng, seed uint64, idx int) {
 		cs := map[string]any{"pre": pre, "history": hist}
 		// model
 		q := map[string]any{"op": "clusterOp", "kind": st.Kind, "rel": "app", "ns": "default", "takeOwnership": st.TakeOwnership, "force": st.Force, "dryRun": st.DryRun, "store": objsJSON(before)}
-		var target []mObj
+		if st.Reject != "" {
+			q["reject"] = []any{st.Reject}
+		}
 		switch st.Kind {
 		case "install":
-			q["target"] = objsJSON(st.Manifest)
-			target = st.Manifest
-		case "upgrade":
-			q["current"], q["target"] = objsJSON(deployed), objsJSON(st.Manifest)
-			target = st.Manifest
-		case "rollback":
-			q["current"], q["target"] = objsJSON(deployed), objsJSON(prevDeployed)
-			target = prevDeployed
+			q["target"] = objsJSON(target)
+		case "upgrade", "rollback":
+			q["current"], q["target"] = objsJSON(deployed), objsJSON(target)
 		case "uninstall":
 			q["target"] = objsJSON(deployed)
 		}
 		mr := m.Query(q)
+		if os.Getenv("VERIF_DEBUG") != "" {
+			fmt.Fprintf(os.Stderr, "STEP %d %s err=%v\n  deployed=%v\n  target=%v\n  reject=%q muts=%v\n  model ok=%v log=%v\n", k, st.Kind, err, keysOf(deployed), keysOf(target), st.Reject, muts, mr["ok"], mr["log"])
+		}
 		rep.H(st.Kind + ":" + map[bool]string{true: "ok", false: "err"}[err == nil])
 		if mr["ok"] != (err == nil) && st.Kind != "uninstall" {
 			rep.Issue(Issue{Kind: "disagreement", Fingerprint: "C02:model:outcome:" + st.Kind, What: fmt.Sprintf("%s: err=%v, model ok=%v", st.Kind, err, mr["ok"]), Case: cs, Model: mr, Seed: seed, Index: idx})
@@ -431,8 +501,13 @@ func kubeHistory(m *Model, rep *Report, r *Rng, seed uint64, idx int) {
 		for _, mu := range muts {
 			key := mu[strings.Index(mu, " ")+1:]
 			inRelease := false
-			for _, l := range [][]mObj{deployed, prevDeployed, target} {
+			for _, l := range [][]mObj{deployed, target} {
 				for _, o := range l {
+					inRelease = inRelease || o.Key == key
+				}
+			}
+			for _, rv := range revs {
+				for _, o := range rv.Manifest {
 					inRelease = inRelease || o.Key == key
 				}
 			}
@@ -442,6 +517,23 @@ func kubeHistory(m *Model, rep *Report, r *Rng, seed uint64, idx int) {
 					fp = "C07:delete-outside-release"
 				}
 				rep.Issue(Issue{Kind: "monitor", Fingerprint: fp, What: "request " + mu + " names an object that is in no manifest of the release", Case: cs, Seed: seed, Index: idx})
+			}
+		}
+		if err == nil && !st.DryRun && !st.TakeOwnership && (st.Kind == "install" || st.Kind == "upgrade") {
+			// C07: a successful operation must not have found an object it creates already there and not its own
+			for _, t := range target {
+				inDeployed := false
+				for _, o := range deployed {
+					inDeployed = inDeployed || o.Key == t.Key
+				}
+				if inDeployed {
+					continue
+				}
+				for _, o := range before {
+					if o.Key == t.Key && !(o.Labels["app.kubernetes.io/managed-by"] == "Helm" && o.Annos["meta.helm.sh/release-name"] == "app" && o.Annos["meta.helm.sh/release-namespace"] == "default") {
+						rep.Issue(Issue{Kind: "monitor", Fingerprint: "C07:took-over-unowned", What: st.Kind + " succeeded although " + t.Key + ", which it would create, existed and did not belong to this release", Case: cs, Seed: seed, Index: idx})
+					}
+				}
 			}
 		}
 		if err == nil && !st.DryRun {
@@ -460,24 +552,31 @@ func kubeHistory(m *Model, rep *Report, r *Rng, seed uint64, idx int) {
 		if canonImplObjs(before) != canonImplObjs(after) {
 			changed++
 		}
-		if err == nil && !st.DryRun {
-			revisions++
-			switch st.Kind {
-			case "install":
-				installed, deployed, prevDeployed = true, st.Manifest, nil
-			case "upgrade":
-				prevDeployed, deployed = deployed, st.Manifest
-			case "rollback":
-				prevDeployed, deployed = deployed, prevDeployed
-			case "uninstall":
-				installed = false
-				rep.Count(cs, changed >= 2)
-				return
+		refused := err != nil && (strings.Contains(err.Error(), "cannot be imported into the current release") || strings.Contains(err.Error(), "Unable to continue with"))
+		switch {
+		case st.DryRun:
+		case err == nil && st.Kind == "uninstall":
+			installed = false
+			rep.Count(cs, changed >= 2)
+			return
+		case err == nil:
+			supersede()
+			revs = append(revs, kubeRev{Manifest: target, Status: "deployed"})
+			installed = true
+		case refused:
+			// nothing was recorded
+		case st.Kind == "uninstall":
+			rep.Count(cs, changed >= 2)
+			return
+		default:
+			// the operation failed after it had recorded its revision (a failed rollback also marks the
+			// newest revision, the one it started from, superseded: performRollback)
+			if st.Kind == "rollback" {
+				revs[len(revs)-1].Status = "superseded"
 			}
-		} else if err != nil && st.Kind != "install" {
-			// a failed upgrade/rollback leaves a failed revision: later operations diff against the deployed one;
-			// stop the history here (C01/C03 cover histories through failures)
-			break
+			revs = append(revs, kubeRev{Manifest: target, Status: "failed"})
+			installed = true
+			rep.H("failed-revision:" + st.Kind)
 		}
 		rep.Traces++
 	}
